@@ -12,13 +12,18 @@ def main():
     import htmltools  # noqa: F401
     R = Real()
     jobs = json.load(sys.stdin)
+    # the result channel is the ORIGINAL stdout; whatever the code under test prints (e.g. through sys.__displayhook__) goes to stderr
+    channel = os.fdopen(os.dup(1), "w")
+    os.dup2(2, 1)
+    sys.stdout = sys.__stdout__ = sys.stderr
     out = []
     for job in jobs:
         try:
             out.append(R.run(job))
         except Exception as ex:  # harness failure (not the code under test)
             out.append({"harness_error": f"{type(ex).__name__}: {ex}", "tb": traceback.format_exc()[-1500:]})
-    json.dump(out, sys.stdout)
+    json.dump(out, channel)
+    channel.flush()
 
 
 class Real:
